@@ -107,9 +107,10 @@ type expansion struct {
 }
 
 type succ struct {
-	label string
-	state *world.State
-	key   world.Key
+	label  string
+	state  *world.State
+	key    world.Key
+	parent *world.State // set for lazily kept environment deviations
 }
 
 func faultLabel(id, kind string) string { return "reconcile!" + id + "=" + kind }
@@ -185,9 +186,14 @@ func Search(rep *Report, cfg SearchCfg, seeds []Seed) *Graph {
 		}
 		worlds[i] = world.New()
 	}
+	// a queued state; deviation successors produced by an environment edit are kept as (parent, label) and
+	// materialised when they are expanded: thousands of siblings then share one parent instead of holding a
+	// full state each (the first thorough run of C02 died at 46 GB)
 	type item struct {
-		st  *world.State
-		key world.Key
+		st     *world.State
+		key    world.Key
+		parent *world.State
+		label  string
 	}
 	var frontier []item
 	for i, s := range seeds {
@@ -196,7 +202,7 @@ func Search(rep *Report, cfg SearchCfg, seeds []Seed) *Graph {
 			continue
 		}
 		g.Nodes[k] = &Node{Seed: int32(i), Bottom: -1}
-		frontier = append(frontier, item{s.State, k})
+		frontier = append(frontier, item{st: s.State, key: k})
 	}
 	var nextLayer []item
 	for depth := 0; depth <= cfg.D; depth++ {
@@ -248,6 +254,13 @@ func Search(rep *Report, cfg SearchCfg, seeds []Seed) *Graph {
 					defer wg.Done()
 					for r := range idx {
 						for i := r[0]; i < r[1]; i++ {
+							if frontier[i].st == nil {
+								n := frontier[i].parent.Clone()
+								if err := world.Apply(n, frontier[i].label, cfg.Lag); err != nil {
+									panic(world.HarnessError{Msg: "materialising deviation " + frontier[i].label + ": " + err.Error()})
+								}
+								frontier[i].st, frontier[i].parent = n, nil
+							}
 							results[i] = g.expand(rep, w, frontier[i].st, frontier[i].key, depth < cfg.D)
 						}
 					}
@@ -264,11 +277,11 @@ func Search(rep *Report, cfg SearchCfg, seeds []Seed) *Graph {
 					n.Succ = append(n.Succ, s.key)
 					if old, ok := g.Nodes[s.key]; !ok {
 						g.Nodes[s.key] = &Node{Depth: int8(depth), Seed: -1, Parent: e.from, Via: s.label, Bottom: -1}
-						next = append(next, item{s.state, s.key})
+						next = append(next, item{st: s.state, key: s.key})
 					} else if !old.done && int(old.Depth) > depth {
 						// first seen as a deviation successor, but reachable with fewer deviations
 						old.Depth, old.Parent, old.Via = int8(depth), e.from, s.label
-						next = append(next, item{s.state, s.key})
+						next = append(next, item{st: s.state, key: s.key})
 					}
 				}
 				for _, s := range e.dev {
@@ -278,7 +291,7 @@ func Search(rep *Report, cfg SearchCfg, seeds []Seed) *Graph {
 					}
 					if _, ok := g.Nodes[s.key]; !ok {
 						g.Nodes[s.key] = &Node{Depth: int8(depth + 1), Seed: -1, Parent: e.from, Via: s.label, Bottom: -1}
-						nextLayer = append(nextLayer, item{s.state, s.key})
+						nextLayer = append(nextLayer, item{st: s.state, key: s.key, parent: s.parent, label: s.label})
 					}
 				}
 			}
@@ -326,7 +339,7 @@ func (g *Graph) expand(rep *Report, w *world.World, st *world.State, key world.K
 		g.judge(rep, key, "reconcile", rec, depthOf(g, key))
 		k := rec.After.Key()
 		e.quiet = len(rec.Writes()) == 0 && k == key
-		e.prog = append(e.prog, succ{"reconcile", rec.After, k})
+		e.prog = append(e.prog, succ{label: "reconcile", state: rec.After, key: k})
 		if cfg.OnEdge != nil {
 			cfg.OnEdge(st, "reconcile", rec, rec.After)
 		}
@@ -338,7 +351,7 @@ func (g *Graph) expand(rep *Report, w *world.World, st *world.State, key world.K
 		if err := world.Apply(n, l, cfg.Lag); err != nil {
 			panic(world.HarnessError{Msg: "progress transition " + l + ": " + err.Error()})
 		}
-		e.prog = append(e.prog, succ{l, n, n.Key()})
+		e.prog = append(e.prog, succ{label: l, state: n, key: n.Key()})
 	}
 	if !deviate {
 		return e
@@ -349,7 +362,7 @@ func (g *Graph) expand(rep *Report, w *world.World, st *world.State, key world.K
 			if err := world.Apply(n, l, cfg.Lag); err != nil {
 				panic(world.HarnessError{Msg: "deviation " + l + ": " + err.Error()})
 			}
-			e.dev = append(e.dev, succ{l, n, n.Key()})
+			e.dev = append(e.dev, succ{label: l, key: n.Key(), parent: st})
 		}
 	}
 	if rec != nil && len(cfg.FaultKinds) > 0 {
@@ -378,7 +391,7 @@ func (g *Graph) expand(rep *Report, w *world.World, st *world.State, key world.K
 				if cfg.OnEdge != nil {
 					cfg.OnEdge(st, label, fr, fr.After)
 				}
-				e.dev = append(e.dev, succ{label, fr.After, fr.After.Key()})
+				e.dev = append(e.dev, succ{label: label, state: fr.After, key: fr.After.Key()})
 			}
 		}
 	}
